@@ -34,11 +34,11 @@ CLAIMED = {
         "OpenAPI 3 style table returns the value with scalars as strings; C19_form_explode_array (documented exception); C19_reject (only the library exception, "
         "only for non scalar/list/dict). Tie: extracted model vs format.py on every style x explode x shape; spec decoder cross-checked against an independent Python decoder.",
    note=TB + "Modelled: coq/Format.v; numbers enter the model as the text Python's str() gives (float formatting not modelled); booleans inside containers are outside the quantifier.", ref="5/C19"),
- "C14": dict(cat="proof", tech="Coq proof (build half) + model-implementation correspondence and oracle (resolve half)",
-   text="C14_build: every graph built with the public API is consistently linked on both ends (induction over API programs). resolve(): executable model "
-        "coq/GraphOps.v tied to Node.resolve on hand-built graphs with references (node table, result root, exception class); theorems about the resolve model "
-        "are still to be added, so the resolve half currently rests on the correspondence plus the implementation oracle (check_consistency, no Reference "
-        "reachable, every reference replaced by the node it names, documented exception for unknown / duplicate names).",
+ "C14": dict(cat="proof", tech="Coq proofs for add_transition and for resolve() over all API programs + correspondence + per-graph certified well-formedness",
+   text="C14_build (every API program yields tables linked on both ends), C14_resolve / C14_resolve_general (after a successful resolve no Reference is reachable from the "
+        "returned root, child links stay recorded, records of non-reference nodes are truthful; any sub-graphs, chains, sharing, recursion), C14_unknown_name / "
+        "C14_duplicate_id (documented exception). Parser outputs: the node table of every graph returned by the five front ends is checked by the model's wfb "
+        "(proved sufficient) and by check_consistency / id uniqueness on the implementation.",
    note=TB + "Modelled: coq/Graph.v, coq/GraphOps.v. Front-end graphs are checked by their own streams as they are added.", ref="5/C14"),
  "C15": dict(cat="proof", tech="Coq simulation proof (both directions) for optimize() + model-implementation correspondence of the node table",
    text="C15_sem / C15_sem_everywhere: for every graph and every complete execution before optimize() there is one after it applying the same side-effecting nodes "
